@@ -53,8 +53,8 @@ def _sample(job):
     t = float(stats.kendalltau(X[:, 0], X[:, 1])[0])
     tb = math.sqrt(2.0 * math.log(2.0 / ALPHA) / (n // 2))
     rec['stats']['tau'] = (t, tau, tb)
-    # joint distribution: empirical joint CDF on a 9x9 grid vs cumulative_distribution
-    g = np.linspace(0.1, 0.9, 9)
+    # joint distribution: empirical joint CDF on an 11x11 grid (0, 0.1 .. 0.9, 1) vs cumulative_distribution
+    g = np.concatenate([[0.0], np.linspace(0.1, 0.9, 9), [1.0]])       # the edges of the unit square belong to the batch
     P = O.mesh(g)
     H = np.array([np.mean((X[:, 0] <= a) & (X[:, 1] <= b)) for a, b in P])
     Cm = np.asarray(m.cumulative_distribution(P.copy()), dtype=float)
@@ -68,7 +68,7 @@ def run(ctx):
     ctx.rule = ('sample(n=%d; 16 n for Clayton) of parameterised Clayton, Frank and Gumbel copulas at taus across the admissible part of [-0.8, 0.8] x seeds: exact '
                 'clauses (shape (n,2), finite, in [0,1]); TLC (Acceptance) evaluates the bands: Kolmogorov-Smirnov distance of each column to the '
                 'uniform law (DKW), sample Kendall tau vs model tau (Hoeffding bound for U-statistics), sup distance between the empirical joint CDF '
-                'on a 9x9 grid and cumulative_distribution (Hoeffding); per-comparison level 1e-11.  non-trivial = every sample; distinct by '
+                'on an 11x11 grid (0, 0.1 .. 0.9, 1) and cumulative_distribution (Hoeffding); per-comparison level 1e-11.  non-trivial = every sample; distinct by '
                 '(family, tau, seed)') % n
     ctx.assumptions = ['bands are non-asymptotic with total false-alarm probability < 1e-9 per run; a distributional defect smaller than the band '
                        '(%.3f for CDFs, %.3f for tau) is not detected' % (math.sqrt(math.log(2 / ALPHA) / (2.0 * n)), math.sqrt(2 * math.log(2 / ALPHA) / (n // 2)))]
